@@ -20,7 +20,7 @@ RULE = (
     "requested batches; distinct by (sequence class, p, verbose, folder, calls)."
 )
 ASSUMPTIONS = ["scripted values are kept a factor 1.02 away from the 0.5*10^-p rounding boundary; exact boundary values are not generated"]
-REQUIRED_COUNTERS = {"saving_folder_used_before_by_another_run": 30, "runs_with_a_history_reading_sampler": 60, "runs_with_signed_loss": 40, "runs_on_a_three_point_grid": 30, "numpy_integer_precision": 30, "continued_after_restore": 40, "runs": 200, "converged_inside": 60, "never_converged": 30, "no_precision": 10, "verbose_twins": 60, "folder_restores": 40,
+REQUIRED_COUNTERS = {"same_calibration_ran_longer_in_the_folder_before": 20, "saving_folder_used_before_by_another_run": 30, "runs_with_a_history_reading_sampler": 60, "runs_with_signed_loss": 40, "runs_on_a_three_point_grid": 30, "numpy_integer_precision": 30, "continued_after_restore": 40, "runs": 200, "converged_inside": 60, "never_converged": 30, "no_precision": 10, "verbose_twins": 60, "folder_restores": 40,
                      "later_calls_after_convergence": 20}
 SHARDS = {"quick": 8, "thorough": 16}
 
@@ -140,6 +140,19 @@ def one_run(rng, ctx, out):
             wit["saving_folder_used_before_by_another_run"] = True
         except Exception:  # noqa: BLE001
             pass
+    if use_folder and "saving_folder_used_before_by_another_run" not in wit and rng.random() < 0.3:
+        # the very same calibration (same seed, same scripted model) was run before in this folder WITHOUT a precision, to the end:
+        # the folder holds a longer history whose first rows are identical to what this run will record
+        try:
+            p_keep, pp_keep = p, pp
+            p, pp = None, None
+            run(False, folder)
+            c["same_calibration_ran_longer_in_the_folder_before"] = c.get("same_calibration_ran_longer_in_the_folder_before", 0) + 1
+            wit["same_calibration_ran_longer_in_the_folder_before"] = True
+        except Exception:  # noqa: BLE001
+            pass
+        finally:
+            p, pp = p_keep, pp_keep
     try:
         cal, model, ran, rets = run(verbose, folder)
     except Exception as e:  # noqa: BLE001
